@@ -150,7 +150,7 @@ func (c *Check) Finish() int {
 		Info       int    `json:"info"`
 	}
 	var revs []ruleEv
-	var samples []any
+	samples := []any{}
 	nviol, nobl, ndis, nknown := 0, 0, 0, 0
 	replayN := 0
 	violate := func(in *Instance) {
